@@ -75,6 +75,20 @@ def run(ctx):
                 cases.append((A, E, dict(o, ignore_patterns=[]), apath))
                 if rng.random() < 0.5:
                     cases.append((A, E, o, apath))
+        # several patterns: an earlier one that matches both lines without excusing the difference, a later one that does
+        # excuse it (and the other way round), inside otherwise equal texts
+        FAMS = [('name=alice id 7 end', 'name=bob id 7 end', [r'id \d+', r'^name=.* end$']),
+                ('run abc 12', 'run xyz 12', [r'\d+', r'run [a-z]+ \d+']),
+                ('x 1 y 22', 'x 3 y 22', [r'22', r'x \d']),
+                ('ab12 tail', 'ab34 tail', [r'tail', r'[a-z]+\d+', r'zz'])]
+        for la_, le_, pats in FAMS:
+            for rev in (False, True):
+                for _ in range(3):
+                    pre = [T.gen_line(rng) for _ in range(rng.randint(0, 2))]
+                    post = [T.gen_line(rng) for _ in range(rng.randint(0, 2))]
+                    o = dict(T.gen_opts(rng), ignore_patterns=list(reversed(pats)) if rev else list(pats), remove_lines=[],
+                             ignore_substrings=[], preprocess=None)
+                    cases.append((pre + [la_] + post, pre + [le_] + post, o, False))
         # corpus: hand-written boundary cases
         corpus = [
             (['a 12', 'b'], ['a 34', 'b'], dict(T.gen_opts(rng), ignore_patterns=[r'\d+'], preprocess=None), False),
